@@ -25,7 +25,7 @@ def tree_with_leaf_filters(g, rng, depth, ops, leaf_mode=None):
     rec = lambda: tree_with_leaf_filters(g, rng, depth - 1, ops, leaf_mode)
     if op == "sub":
         # subtractors may be arbitrary (nested, overlapping, duplicated) inside the exact domain
-        return {"op": op, "l": rec(), "r": tree_with_leaf_filters(g, rng, depth - 1, ops, None)}
+        return {"op": op, "l": rec(), "r": g.with_empty_event(tree_with_leaf_filters(g, rng, depth - 1, ops, None))}
     if op in ("or", "and"):
         return {"op": op, "l": rec(), "r": rec()}
     if op in ("inv", "flatten"):
